@@ -270,7 +270,7 @@ def check(ctx):
     ctx.trusted = ["core: drop_in_place of a slice continues with the remaining elements after one destructor unwinds and never drops an element twice",
                    "rustc drop elaboration"]
     ctx.assumptions = ["elements that unwinding abandons may leak (allowed by the property)"]
-    cfgs = ["F0", "F1"] if ctx.tier == "quick" else ["F0", "F1", "F2"]
+    cfgs = ["F0", "F1", "F1N"] if ctx.tier == "quick" else ["F0", "F1", "F1N", "F2", "F0N", "F2N"]
     ctx.need(*cfgs)
     for cfg in cfgs:
         verify_models(ctx, cfg, ["<GenericArrayIter<$0,$1> as core::iter::ExactSizeIterator>::len", "GenericArrayIter<$0,$1>::as_slice", "GenericArrayIter<$0,$1>::as_mut_slice"])
